@@ -117,7 +117,11 @@ def compiles(t, w, be, deg, as_bool=False):
     """(ok, mode or reason).  t: arithmetic tree (assignment / bool) or comparison root (bool)."""
     try:
         if t[0] in ("eq", "neq") and t[1][0] == "Q" and t[2][0] == "Q":
-            return True, be                   # poly_p ==/!= poly_p : plain bool
+            # poly_p ==/!= poly_p : plain bool; unless the storage is shared it forwards to poly ==/!= poly, which is
+            # instantiated in the backend's own mode whatever the operands (measured with -fsyntax-only probes)
+            if deg % elt_count(w, be):
+                raise Reject("degree not a multiple of the register width")
+            return True, be
         n = analyze(t, w, be)
         if n.kind != "E":
             if as_bool and n.kind == "P":
@@ -129,6 +133,34 @@ def compiles(t, w, be, deg, as_bool=False):
         return True, n.fmode
     except Reject as r:
         return False, str(r)
+
+
+# ------------------------------------------------------------------------------------------ degrees
+MAX_DEG = {16: 512, 32: 32768, 64: 1048576}      # params<T>::kMaxPolyDegree
+
+
+def degree_plan(w, be, tier):
+    """Degrees of the additional parts of a configuration (the base part is degree 16 with the full case list).
+    `E` is the register width of the backend's own mode: a comparison / sum / difference of two polynomials needs E | degree
+    (static_assert in the library; measured: tools/exprcheck.py run_probes), roots of a narrower mode (products: serial;
+    fused products: sse) accept the other degrees too and are the only shapes generated there.
+    Returns [(degree, nmoduli)], ascending: the smallest degree; non-powers of two; one register above / below the block
+    sizes 64 and 128; a degree between 128 and 256; thorough adds more of each kind, degrees where only narrower-mode
+    roots compile (off-width), and a large one."""
+    E = elt_count(w, be)
+    up = lambda d: -(-d // E) * E
+    q = [(E, 2), (3 * E, 2), (64 + E, 2), (up(96), 2), (128 - E, 2), (up(200), 1)]
+    if tier == "thorough":
+        q += [(2 * E, 2), (5 * E, 2 if w == 16 else 3), (up(24), 2), (up(40), 2), (64 - E, 2), (64, 2), (up(72), 2), (128, 2),
+              (128 + E, 1), (up(192), 1), (256 + E, 1), (up(320), 1), (min(MAX_DEG[w], 1024), 1)]
+        if E > 1:
+            q += [(1, 2), (3, 2), (E // 2, 2), (64 + E // 2, 2), (65, 2), (127, 1)]
+    seen, out = set([16]), []
+    for d, m in q:
+        if d not in seen and 1 <= d <= MAX_DEG[w]:
+            seen.add(d)
+            out.append((d, m))
+    return sorted(out)
 
 
 # ------------------------------------------------------------------------------------------ emission helpers
@@ -388,11 +420,34 @@ def all_handles():
     return [("P", i) for i in range(NV)] + [("Q", j) for j in range(NQ)]
 
 
-def c07_cases(seed, w, be, deg, tier, tu):
+def light_cases(w, be, deg):
+    """the additional degrees: one aliasing pattern of each statement form (the aliasing dimension is swept at the base degree)"""
+    H0 = HOLD[0]
+    quot = lambda h, b: "e.set_quot(%d, [&](size_t cm, size_t i) -> T { return %s; });" % (handle(h), ref(b))
+    cases = [(("add", P(0), P(1)), [], P(0), 0), (("sub", P(0), P(1)), [], P(2), 0), (("mul", P(0), P(1)), [], P(1), 0),
+             (("sub", Q(0), Q(1)), [], Q(0), 0), (("add", P(0), P(1)), [], P(1), 1), (("mul", P(0), P(0)), [], P(0), 1),
+             (("shoup", ("mul", P(0), P(1)), H0), [quot(H0, P(1))], P(0), 0),
+             (("add", P(0), ("mul", P(1), P(2))), [], P(1), 0),
+             (("add", ("sub", P(0), P(1)), ("shoup", ("mul", P(2), P(1)), H0)), [quot(H0, P(1))], P(0), 0),
+             (("cshoup", P(0)), [], P(0), 0),
+             (("sub", Q(0), Q(1)), [], None, 2), (("add", P(0), P(1)), [], None, 3), (("add", Q(0), Q(1)), [], Q(0), 4)]
+    out = []
+    for (t, prep, d, form) in cases:
+        ok, m = compiles(t, w, be, deg)
+        if ok:
+            out.append((t, prep, d, form, m))
+    return out
+
+
+def c07_cases(seed, w, be, deg, tier, tu, profile="full"):
     rng = random.Random("c07/%d/%d/%d/%d/%s/%d" % (seed, w, be, deg, tier, tu))
     g = Gen(rng, w, be, deg)
-    cases = basic_cases(w, be, deg) if tu == 0 else []
-    nrand, maxd = (26, 4) if tier == "quick" else (40, 6)
+    if profile == "full":
+        cases = basic_cases(w, be, deg) if tu == 0 else []
+        nrand, maxd = (26, 4) if tier == "quick" else (40, 6)
+    else:
+        cases = light_cases(w, be, deg)
+        nrand, maxd = (4, 3) if tier == "quick" else (8, 4)
     for k in range(nrand):
         t, prep, m = g.random_case(maxd if k % 3 else min(maxd, 3))
         lv = leaves(t)
@@ -412,65 +467,84 @@ def c07_cases(seed, w, be, deg, tier, tu):
     return cases
 
 
-def emit_c07(seed, w, be_name, deg, nmod, tier, tu=0):
+def part_ns(pt):
+    return "d%dm%d" % (pt["deg"], pt["nmod"])
+
+
+def emit_c07(seed, w, be_name, deg, nmod, tier, tu=0, parts=None):
+    """one translation unit; `parts` = [{deg, nmod, profile}] (default: the single full part (deg, nmod)), one namespace
+    and one Env instantiation per part; case functions are numbered across the parts"""
     be = BE_CODE[be_name]
-    cases = c07_cases(seed, w, be, deg, tier, tu)
-    L = ['// GENERATED by tools/gen_expr.py (C07) seed=%d limb=%d backend=%s deg=%d nmod=%d tier=%s tu=%d' % (seed, w, be_name, deg, nmod, tier, tu),
-         '#include "expr_rt.hpp"', 'using T = %s;' % LIMB_T[w],
-         'using E = xr::Env<T, %d, %d, %d, %d>;' % (deg, nmod, NV, NQ), 'using nfl::shoup; using nfl::compute_shoup;', '']
-    spans = []
-    for k, (t, prep, d, form, m) in enumerate(cases):
-        start = len(L) + 1
-        tc = code(t)
-        ex = cxx(t)
-        L.append("// case %d: %s  [form %d, predicted mode %d]" % (k, ex.replace("e.", ""), form, m))
-        L.append("static void case_%d(E& e, int reps) {" % k)
-        L.append("  static const int tree[] = {%s};" % ", ".join(map(str, tc)))
-        L.append("  for (int rep = 0; rep < reps; rep++) {")
-        L.append("    e.fill(rep);")
-        for p in prep:
-            L.append("    " + p)
-        L.append("    const int mode = decltype(%s)::simd_mode::mode;" % ex)
-        if form == 0:
-            L.append("    e.begin(tree, %d, %d, 0);" % (len(tc), handle(d)))
-            L.append("    %s = %s;" % (cxx(d), ex))
-            L.append("    e.end(mode);")
-        elif form == 1:
-            L.append("    e.begin(tree, %d, %d, 1);" % (len(tc), handle(d)))
-            L.append("    nfl::%s(%s, %s, %s);" % (t[0], cxx(d), cxx(t[1]), cxx(t[2])))
-            L.append("    e.end(mode);")
-        elif form == 2:
-            L.append("    e.begin(tree, %d, %d, 2);" % (len(tc), NV + NQ))
-            L.append("    E::P fresh(%s);" % ex if k % 2 else "    E::P fresh = %s;" % ex)
-            L.append("    e.end(mode, fresh.data());")
-        elif form == 3:
-            L.append("    e.begin(tree, %d, %d, 3);" % (len(tc), NV + NQ))
-            L.append("    E::PP fresh(%s);" % ex)
-            L.append("    e.end(mode, fresh.poly_obj().data());")
-        elif form == 4:
-            L.append("    E::PP other(%s);            // shares the storage of the destination" % cxx(d))
-            L.append("    e.begin(tree, %d, %d, 4);" % (len(tc), handle(d)))
-            L.append("    %s = %s;                  // detaches: the destination gets its own copy first" % (cxx(d), ex))
-            L.append("    e.end(mode, &static_cast<E::PP const&>(other).poly_obj()(0, 0));")
-        L.append("  }")
+    parts = parts or [dict(deg=deg, nmod=nmod, profile="full")]
+    L = ['// GENERATED by tools/gen_expr.py (C07) seed=%d limb=%d backend=%s parts=%s tier=%s tu=%d' % (
+            seed, w, be_name, ",".join("%dx%d:%s" % (pt["deg"], pt["nmod"], pt["profile"]) for pt in parts), tier, tu),
+         '#include "expr_rt.hpp"', 'using T = %s;' % LIMB_T[w], 'using nfl::shoup; using nfl::compute_shoup;', '']
+    spans, allcases, k0 = [], [], 0
+    for pi, pt in enumerate(parts):
+        cases = c07_cases(seed, w, be, pt["deg"], tier, tu, pt["profile"])
+        L.append("namespace %s {" % part_ns(pt))
+        L.append('using E = xr::Env<T, %d, %d, %d, %d>;' % (pt["deg"], pt["nmod"], NV, NQ))
+        for j, (t, prep, d, form, m) in enumerate(cases):
+            k = k0 + j
+            start = len(L) + 1
+            tc = code(t)
+            ex = cxx(t)
+            L.append("// case %d: %s  [form %d, predicted mode %d]" % (k, ex.replace("e.", ""), form, m))
+            L.append("static void case_%d(E& e, int reps) {" % k)
+            L.append("  static const int tree[] = {%s};" % ", ".join(map(str, tc)))
+            L.append("  for (int rep = 0; rep < reps; rep++) {")
+            L.append("    e.fill(rep);")
+            for p in prep:
+                L.append("    " + p)
+            L.append("    const int mode = decltype(%s)::simd_mode::mode;" % ex)
+            if form == 0:
+                L.append("    e.begin(tree, %d, %d, 0);" % (len(tc), handle(d)))
+                L.append("    %s = %s;" % (cxx(d), ex))
+                L.append("    e.end(mode);")
+            elif form == 1:
+                L.append("    e.begin(tree, %d, %d, 1);" % (len(tc), handle(d)))
+                L.append("    nfl::%s(%s, %s, %s);" % (t[0], cxx(d), cxx(t[1]), cxx(t[2])))
+                L.append("    e.end(mode);")
+            elif form == 2:
+                L.append("    e.begin(tree, %d, %d, 2);" % (len(tc), NV + NQ))
+                L.append("    E::P fresh(%s);" % ex if k % 2 else "    E::P fresh = %s;" % ex)
+                L.append("    e.end(mode, fresh.data());")
+            elif form == 3:
+                L.append("    e.begin(tree, %d, %d, 3);" % (len(tc), NV + NQ))
+                L.append("    E::PP fresh(%s);" % ex)
+                L.append("    e.end(mode, fresh.poly_obj().data());")
+            elif form == 4:
+                L.append("    E::PP other(%s);            // shares the storage of the destination" % cxx(d))
+                L.append("    e.begin(tree, %d, %d, 4);" % (len(tc), handle(d)))
+                L.append("    %s = %s;                  // detaches: the destination gets its own copy first" % (cxx(d), ex))
+                L.append("    e.end(mode, &static_cast<E::PP const&>(other).poly_obj()(0, 0));")
+            L.append("  }")
+            L.append("}")
+            spans.append((start, len(L), k))
+        L.append("static void run_all(uint64_t seed) {")
+        L.append("  E* env = new E(seed);")
+        L.append("  E& e = *env;")
+        L.append("  int reps = vh::thorough() ? 4 : 3;")
+        for j in range(len(cases)):
+            L.append("  case_%d(e, reps);" % (k0 + j))
+        L.append("  delete env;")
         L.append("}")
-        spans.append((start, len(L), k))
-    L.append("")
+        L.append("}  // namespace %s" % part_ns(pt))
+        L.append("")
+        k0 += len(cases)
+        allcases += cases
     L.append("int main() {")
-    L.append("  E* env = new E(vh::env_u64(\"VERIF_SEED\", 1) * 1000003ULL + %d);" % (w * 131 + be * 17 + tu))
-    L.append("  E& e = *env;")
-    L.append("  int reps = vh::thorough() ? 4 : 3;")
-    for k in range(len(cases)):
-        L.append("  case_%d(e, reps);" % k)
+    for pi, pt in enumerate(parts):
+        L.append("  %s::run_all(vh::env_u64(\"VERIF_SEED\", 1) * 1000003ULL + %d);" % (
+            part_ns(pt), w * 131 + be * 17 + tu + (0 if pt["profile"] == "full" else 7919 * pt["deg"])))
     L.append("  fflush(stdout);")
-    L.append("  delete env;")
     L.append("  return 0;")
     L.append("}")
-    return "\n".join(L) + "\n", spans, cases
+    return "\n".join(L) + "\n", spans, allcases
 
 
 # ------------------------------------------------------------------------------------------ C08
-def c08_shapes(seed, w, be, deg, tier):
+def c08_shapes(seed, w, be, deg, tier, profile="full"):
     """(kind, tree, t_leaf, target-ref, prep).  `t_leaf` is the controlled leaf."""
     rng = random.Random("c08/%d/%d/%d/%d/%s" % (seed, w, be, deg, tier))
     g = Gen(rng, w, be, deg)
@@ -480,26 +554,42 @@ def c08_shapes(seed, w, be, deg, tier):
     def add(root, l, r_, t, target, prep=()):
         shapes.append((root, l, r_, t, target, list(prep)))
 
-    for root in ("eq", "neq"):
-        # poly/poly, poly_p/poly_p (distinct storage), poly_p/poly
-        add(root, P(0), T0, T0, ref(P(0)))
-        add(root, T0, P(0), T0, ref(P(0)))
-        add(root, Q(0), T1, T1, ref(Q(0)))
-        add(root, T1, P(0), T1, ref(P(0)))
-        # expression on either side
-        add(root, ("add", P(0), P(1)), T0, T0, ref(("add", P(0), P(1))))
-        add(root, T0, ("sub", P(0), P(1)), T0, ref(("sub", P(0), P(1))))
-        add(root, ("mul", P(0), P(1)), T0, T0, ref(("mul", P(0), P(1))))
-        add(root, T1, ("add", P(0), P(1)), T1, ref(("add", P(0), P(1))))
-        add(root, T1, ("mul", Q(0), Q(1)), T1, ref(("mul", Q(0), Q(1))))
-        # expression == expression: L == (S + t)  with t := L - S
-        for (l, s) in [(("add", P(0), P(1)), P(2)), (("mul", P(0), P(1)), ("mul", P(2), P(3))), (("sub", Q(0), P(0)), P(1))]:
-            r_ = ("add", s, T0)
-            add(root, l, r_, T0, "xr::rsub<T>(cm,%s,%s)" % (ref(l), ref(s)))
-    nrand = 4 if tier == "quick" else 12
+    if profile == "full":
+        for root in ("eq", "neq"):
+            # poly/poly, poly_p/poly_p (distinct storage), poly_p/poly
+            add(root, P(0), T0, T0, ref(P(0)))
+            add(root, T0, P(0), T0, ref(P(0)))
+            add(root, Q(0), T1, T1, ref(Q(0)))
+            add(root, T1, P(0), T1, ref(P(0)))
+            # expression on either side
+            add(root, ("add", P(0), P(1)), T0, T0, ref(("add", P(0), P(1))))
+            add(root, T0, ("sub", P(0), P(1)), T0, ref(("sub", P(0), P(1))))
+            add(root, ("mul", P(0), P(1)), T0, T0, ref(("mul", P(0), P(1))))
+            add(root, T1, ("add", P(0), P(1)), T1, ref(("add", P(0), P(1))))
+            add(root, T1, ("mul", Q(0), Q(1)), T1, ref(("mul", Q(0), Q(1))))
+            # expression == expression: L == (S + t)  with t := L - S
+            for (l, s) in [(("add", P(0), P(1)), P(2)), (("mul", P(0), P(1)), ("mul", P(2), P(3))), (("sub", Q(0), P(0)), P(1))]:
+                r_ = ("add", s, T0)
+                add(root, l, r_, T0, "xr::rsub<T>(cm,%s,%s)" % (ref(l), ref(s)))
+        nrand = 4 if tier == "quick" else 12
+        nbool = nrand
+        bool_srcs = [P(0), ("add", P(0), P(1)), ("mul", P(0), P(1))]
+    else:
+        # the additional degrees: every operand kind once per root (the shape dimension is swept at the base degree);
+        # the roots of narrower modes (a product on one side: serial) are the ones that exist at off-width degrees
+        add("eq", P(0), T0, T0, ref(P(0)))
+        add("neq", T0, P(0), T0, ref(P(0)))
+        add("eq", Q(0), T1, T1, ref(Q(0)))
+        add("neq", Q(0), T1, T1, ref(Q(0)))
+        add("eq", T0, ("sub", P(0), P(1)), T0, ref(("sub", P(0), P(1))))
+        add("eq", ("mul", P(0), P(1)), T0, T0, ref(("mul", P(0), P(1))))
+        add("neq", T1, ("mul", Q(0), Q(1)), T1, ref(("mul", Q(0), Q(1))))
+        nrand = 1 if tier == "quick" else 3
+        nbool = 0 if tier == "quick" else 2
+        bool_srcs = [P(0), ("mul", P(0), P(1))]
     for k in range(nrand):
         # random tree against a controlled leaf, or against (S + t)
-        l, prep, _ = g.random_case(3 if tier == "quick" else 5, holders=[("P", 5)], top=False)
+        l, prep, _ = g.random_case(3 if (tier == "quick" or profile != "full") else 5, holders=[("P", 5)], top=False)
         root = rng.choice(["eq", "neq"])
         if rng.random() < 0.5:
             add(root, l, T0, T0, ref(l), prep) if rng.random() < 0.5 else add(root, T0, l, T0, ref(l), prep)
@@ -507,10 +597,12 @@ def c08_shapes(seed, w, be, deg, tier):
             s = ("P", rng.choice(DATA_P))
             add(root, l, ("add", s, T0), T0, "xr::rsub<T>(cm,%s,%s)" % (ref(l), ref(s)), prep)
     # bool(arithmetic expression):  S - t  (zero iff t = S), t - S, and a product with a controlled factor
-    for s in [P(0), ("add", P(0), P(1)), ("mul", P(0), P(1))]:
-        add("bool", ("sub", s, T0), None, T0, ref(s))
-        add("bool", ("sub", T0, s), None, T0, ref(s))
-    for k in range(nrand):
+    for n_, s in enumerate(bool_srcs):
+        if profile == "full" or n_ % 2 == 0:
+            add("bool", ("sub", s, T0), None, T0, ref(s))
+        if profile == "full" or n_ % 2 == 1:
+            add("bool", ("sub", T0, s), None, T0, ref(s))
+    for k in range(nbool):
         s, prep, _ = g.random_case(3, holders=[("P", 5)], top=False)
         add("bool", ("sub", s, T0), None, T0, ref(s), prep)
     out = []
@@ -522,36 +614,7 @@ def c08_shapes(seed, w, be, deg, tier):
     return out
 
 
-def emit_c08(seed, w, be_name, deg, nmod, tier):
-    be = BE_CODE[be_name]
-    shapes = c08_shapes(seed, w, be, deg, tier)
-    L = ['// GENERATED by tools/gen_expr.py (C08) seed=%d limb=%d backend=%s deg=%d nmod=%d tier=%s' % (seed, w, be_name, deg, nmod, tier),
-         '#include "expr_rt.hpp"', 'using T = %s;' % LIMB_T[w],
-         'using E = xr::Env<T, %d, %d, %d, %d>;' % (deg, nmod, NV, NQ), 'using nfl::shoup; using nfl::compute_shoup;', '']
-    spans = []
-    for k, (root, tree, t, target, prep, m) in enumerate(shapes):
-        start = len(L) + 1
-        tc = code(tree)
-        ex = cxx(tree)
-        both_q = root != "bool" and tree[1][0] == "Q" and tree[2][0] == "Q"
-        L.append("// shape %d: bool(%s)  [predicted mode %d]" % (k, ex.replace("e.", ""), m))
-        L.append("static void shape_%d(E& e) {" % k)
-        L.append("  static const int tree[] = {%s};" % ", ".join(map(str, tc)))
-        L.append("  auto target = [&](size_t cm, size_t i) -> T { return %s; };" % target)
-        L.append("  auto prep = [&]() { %s };" % " ".join(prep))
-        if both_q:
-            op = "ppeq" if root == "eq" else "ppne"
-            L.append("  auto run = [&](const char*) { bool r = %s; e.emit_pp(\"%s\", %d, %d, r); };" % (ex, op, handle(tree[1]), handle(tree[2])))
-        else:
-            L.append("  const int mode = decltype(%s)::simd_mode::mode;" % ex if not (root != "bool" and tree[1][0] == "Q")
-                     else "  const int mode = decltype(%s)::simd_mode::mode;" % cxx((root, ("P", 0), tree[2])))
-            L.append("  auto run = [&](const char*) { bool r = bool(%s); e.emit_bool(tree, %d, 0, mode, r); };" % (ex, len(tc)))
-        L.append("  e.patterns(%d, target, prep, run);" % handle(t))
-        L.append("}")
-        spans.append((start, len(L), k))
-    # fixed part: polynomial to bool, shared handles on identical storage
-    L.append("""
-static void fixed(E& e) {
+FIXED_PBOOL = """
   // poly -> bool: all zero, one-hot at every position, random
   e.fill_zero(); e.emit_pbool(0, bool(e.v[0]));
   for (size_t k : e.positions()) {
@@ -561,6 +624,10 @@ static void fixed(E& e) {
     e.emit_pbool(1, bool(e.v[1]));
   }
   e.fill(0); e.emit_pbool(2, bool(e.v[2]));
+  e.sweep_pbool(0, [&]() -> bool { return bool(e.v[0]); });
+  e.sweep_pbool(%(q0)d, [&]() -> bool { return bool(static_cast<E::PP const&>(e.q[0]).poly_obj()); });
+"""
+FIXED_BITS = """
   // a single non-zero residue with a single bit set, every bit position (word-part-blind reductions)
   for (int b = 0; b < (int)(8 * sizeof(T)) - 2; b++) {
     size_t k = (size_t)(b * 5 + 1) %% E::N, cm = k / %(deg)d, i = k %% %(deg)d;
@@ -572,8 +639,10 @@ static void fixed(E& e) {
     e.fill_zero(); e.set(0, cm, i, (T)((xr::modp<T>(cm) - 1) & ~(((T)1 << (4 * sizeof(T))) - 1)));
     if (b %% 8 == 0) e.emit_pbool(0, bool(e.v[0]));
   }
+"""
+FIXED_PP = """
   // poly_p on identical storage: copies share the pointer
-  for (int rep = 0; rep < 3; rep++) {
+  for (int rep = 0; rep < %(ppreps)d; rep++) {
     e.fill(rep);
     E::PP same(e.q[0]);
     e.emit_pp("ppeq", %(q0)d, %(q0)d, same == e.q[0]);
@@ -583,6 +652,8 @@ static void fixed(E& e) {
     e.emit_pp("ppeq", %(q0)d, %(q1)d, e.q[0] == e.q[1]);
     e.emit_pp("ppne", %(q0)d, %(q1)d, e.q[0] != e.q[1]);
   }
+"""
+FIXED_F1 = """
   // the former defect witnesses of F1
   {
     e.fill_zero();
@@ -599,19 +670,79 @@ static void fixed(E& e) {
     e.emit_bool(t01, 5, 1, mode, bool(e.v[0] == e.v[1]));
     e.emit_bool(n01, 5, 1, mode, bool(e.v[0] != e.v[1]));
   }
-}
-""" % {"deg": deg, "q0": NV, "q1": NV + 1})
+"""
+
+
+def emit_c08(seed, w, be_name, deg, nmod, tier, parts=None):
+    """one translation unit; `parts` = [{deg, nmod, profile}] as in emit_c07; shape functions are numbered across the parts"""
+    be = BE_CODE[be_name]
+    parts = parts or [dict(deg=deg, nmod=nmod, profile="full")]
+    L = ['// GENERATED by tools/gen_expr.py (C08) seed=%d limb=%d backend=%s parts=%s tier=%s' % (
+            seed, w, be_name, ",".join("%dx%d:%s" % (pt["deg"], pt["nmod"], pt["profile"]) for pt in parts), tier),
+         '#include "expr_rt.hpp"', 'using T = %s;' % LIMB_T[w], 'using nfl::shoup; using nfl::compute_shoup;', '']
+    spans, allshapes, k0 = [], [], 0
+    for pi, pt in enumerate(parts):
+        pdeg, full = pt["deg"], pt["profile"] == "full"
+        shapes = c08_shapes(seed, w, be, pdeg, tier, pt["profile"])
+        L.append("namespace %s {" % part_ns(pt))
+        L.append('using E = xr::Env<T, %d, %d, %d, %d>;' % (pdeg, pt["nmod"], NV, NQ))
+        for j, (root, tree, t, target, prep, m) in enumerate(shapes):
+            k = k0 + j
+            start = len(L) + 1
+            tc = code(tree)
+            ex = cxx(tree)
+            both_q = root != "bool" and tree[1][0] == "Q" and tree[2][0] == "Q"
+            leaf_only = root != "bool" and tree[1][0] in "PQ" and tree[2][0] in "PQ"
+            L.append("// shape %d: bool(%s)  [predicted mode %d]" % (k, ex.replace("e.", ""), m))
+            L.append("static void shape_%d(E& e) {" % k)
+            L.append("  static const int tree[] = {%s};" % ", ".join(map(str, tc)))
+            L.append("  auto target = [&](size_t cm, size_t i) -> T { return %s; };" % target)
+            L.append("  auto prep = [&]() { %s };" % " ".join(prep))
+            if both_q:
+                L.append("  xr::BoolCase bc{1, tree, %d, 0, %d, %d};" % (len(tc), handle(tree[1]), handle(tree[2])))
+                L.append("  auto ev = [&]() -> bool { bool r = %s; return r; };" % ex)
+            else:
+                L.append("  const int mode = decltype(%s)::simd_mode::mode;" % ex if not (root != "bool" and tree[1][0] == "Q")
+                         else "  const int mode = decltype(%s)::simd_mode::mode;" % cxx((root, ("P", 0), tree[2])))
+                L.append("  xr::BoolCase bc{0, tree, %d, mode, 0, 0};" % len(tc))
+                L.append("  auto ev = [&]() -> bool { return bool(%s); };" % ex)
+            # the difference / the equal residue at EVERY position for the polynomial-only shapes (and for every shape of a
+            # small polynomial); the boundary-directed positions otherwise
+            L.append("  e.patterns(%d, target, prep, bc, ev, %s);" % (handle(t), "true" if (leaf_only or root == "bool" and size(tree) <= 3) else "false"))
+            L.append("}")
+            spans.append((start, len(L), k))
+        cmp_ok = pdeg % elt_count(w, be) == 0
+        sub = {"deg": pdeg, "q0": NV, "q1": NV + 1, "ppreps": 3 if full else 1}
+        L.append("static void fixed(E& e) {")
+        L.append(FIXED_PBOOL % sub)
+        if full:
+            L.append(FIXED_BITS % sub)
+        if cmp_ok:
+            L.append(FIXED_PP % sub)
+        if cmp_ok and pdeg >= 8 and full:
+            L.append(FIXED_F1 % sub)
+        L.append("}")
+        L.append("static void run_all(uint64_t seed) {")
+        L.append("  E* env = new E(seed);")
+        L.append("  E& e = *env;")
+        L.append("  e.light = %s;" % ("false" if full else "true"))
+        L.append("  fixed(e);")
+        for j in range(len(shapes)):
+            L.append("  shape_%d(e);" % (k0 + j))
+        L.append("  delete env;")
+        L.append("}")
+        L.append("}  // namespace %s" % part_ns(pt))
+        L.append("")
+        k0 += len(shapes)
+        allshapes += shapes
     L.append("int main() {")
-    L.append("  E* env = new E(vh::env_u64(\"VERIF_SEED\", 1) * 1000003ULL + %d);" % (7 + w * 131 + be * 17))
-    L.append("  E& e = *env;")
-    L.append("  fixed(e);")
-    for k in range(len(shapes)):
-        L.append("  shape_%d(e);" % k)
+    for pi, pt in enumerate(parts):
+        L.append("  %s::run_all(vh::env_u64(\"VERIF_SEED\", 1) * 1000003ULL + %d);" % (
+            part_ns(pt), 7 + w * 131 + be * 17 + (0 if pt["profile"] == "full" else 7919 * pt["deg"])))
     L.append("  fflush(stdout);")
-    L.append("  delete env;")
     L.append("  return 0;")
     L.append("}")
-    return "\n".join(L) + "\n", spans, shapes
+    return "\n".join(L) + "\n", spans, allshapes
 
 
 # ------------------------------------------------------------------------------------------ probes
@@ -644,6 +775,30 @@ def probes(seed, w, be_name, deg, n_acc, n_rej):
         ok, why = compiles(t, w, be, deg)
         if not ok:
             out.append((False, why, cxx(t), probe_source(w, deg, 1, t, False)))
+    return out
+
+
+def degree_probes(seed, w, be_name, tier):
+    """single-statement sources at degrees that are not multiples of the backend's register width: which roots the
+    library accepts there (those of a narrower mode) and which it rejects (static_assert `no need for a footer`);
+    the accepted side is also exercised by every generated part (it has to compile)"""
+    be = BE_CODE[be_name]
+    E = elt_count(w, be)
+    if E == 1:
+        return []
+    rng = random.Random("degprobe/%d/%d/%d" % (seed, w, be))
+    cand = [(("eq", P(0), P(1)), True), (("neq", Q(0), Q(1)), True), (("add", P(0), P(1)), False), (("sub", P(0), P(1)), True),
+            (("eq", ("mul", P(0), P(1)), P(2)), True), (("mul", P(0), P(1)), False), (("eq", Q(0), ("add", P(0), P(1))), True),
+            (("shoup", ("mul", P(0), P(1)), P(2)), False)]
+    degs = [64 + E // 2, 65, 3 * E + 1, E // 2, 200 + E // 2 + (0 if E > 2 else 1)]
+    picks = [(t, b, d) for (t, b) in cand for d in degs]
+    rng.shuffle(picks)
+    out, want = [], ({True: 1, False: 1} if tier == "quick" else {True: 4, False: 6})
+    for (t, as_bool, d) in picks:
+        ok, why = compiles(t, w, be, d, as_bool=as_bool)
+        if want[ok] > 0:
+            want[ok] -= 1
+            out.append((ok, "degree %d: %s" % (d, why), ("bool(%s)" if as_bool else "%s") % cxx(t) + " at degree %d" % d, probe_source(w, d, 1, t, as_bool)))
     return out
 
 
